@@ -126,7 +126,8 @@ def run_tree(rec, tier, seed, ti, spec, other):
                    ("walk-shuffle-a", dict(walk_seed=11 + ti)), ("walk-shuffle-b", dict(walk_seed=977 + ti, hashseed="5")),
                    ("same-instance-twice", dict(mode="twice-same-instance")), ("new-instance-twice", dict(mode="twice-new-instance")),
                    ("after-failed-run", dict(mode="failed-then-good")),
-                   ("relative-roots", dict(mode="relative-roots")), ("dot-root", dict(mode="dot-root")), ("unnormalised-roots", dict(mode="unnormalised-roots"))]
+                   ("relative-roots", dict(mode="relative-roots")), ("dot-root", dict(mode="dot-root")), ("unnormalised-roots", dict(mode="unnormalised-roots")),
+                   ("symlinked-roots", dict(mode="symlinked-roots"))]
         if have_moved:
             configs.append(("other-tree-first", dict(mode="other-tree-first")))
             configs.append(("same-instance-edited", dict(mode="same-instance-edited")))
@@ -223,7 +224,8 @@ def run_tree(rec, tier, seed, ti, spec, other):
                 pth = os.path.join(d, f)
                 data = open(pth, "rb").read()
                 k += 1
-                new = data.replace(b"\n", b"\r\n") if k % 3 == 0 else b"\xff\xfe\x00junk\x80" if k % 3 == 1 else data[: len(data) // 2]
+                # CRLF line ends / binary junk / truncated / same size, other content (an equally long name)
+                new = data.replace(b"\n", b"\r\n") if k % 4 == 0 else b"\xff\xfe\x00junk\x80" if k % 4 == 1 else data[: len(data) // 2] if k % 4 == 2 else data.swapcase()
                 open(pth, "wb").write(new)
         res = drive(stage.REPO, xml_root, mangled)
         rec.count("configurations-compared")
